@@ -425,23 +425,28 @@ func c17Placeholders(res *PureResult, add func(string)) {
 	}
 	defer os.RemoveAll(dir)
 	layouts := []string{"${A}", "x${A}", "${A}y", "${A}${A}", "${A}${B}", "p${A}q${B}r", "${B}-${A}-${B}", "plain", "${A}${B}${A}"}
+	// values: plain, and values carrying characters that are special in regexp replacement templates / YAML
+	// plain scalars (the value must arrive verbatim)
+	aVals := []string{"", "va", "p$w", "a$1b", "$$", "x$", "$0y", "a b", "ü-1", "$A", "a:b", "#c"}
+	bVals := []string{"", "vb", "v$2"}
 	for _, lay := range layouts {
-		for _, aSet := range []bool{false, true} {
-			for _, bSet := range []bool{false, true} {
+		for _, av := range aVals {
+			for _, bv := range bVals {
+				aSet, bSet := av != "", bv != ""
 				os.Unsetenv("A")
 				os.Unsetenv("B")
 				if aSet {
-					os.Setenv("A", "va")
+					os.Setenv("A", av)
 				}
 				if bSet {
-					os.Setenv("B", "vb")
+					os.Setenv("B", bv)
 				}
 				want := lay
 				if aSet {
-					want = strings.ReplaceAll(want, "${A}", "va")
+					want = strings.ReplaceAll(want, "${A}", av)
 				}
 				if bSet {
-					want = strings.ReplaceAll(want, "${B}", "vb")
+					want = strings.ReplaceAll(want, "${B}", bv)
 				}
 				file := filepath.Join(dir, "c.yml")
 				yml := fmt.Sprintf("hosts:\n  - \"%s\"\nusername: \"%s\"\nbucketName: \"%s\"\ndcp:\n  group:\n    name: \"%s\"\nmetadata:\n  config:\n    bucket: \"%s\"\n", lay, lay, lay, lay, lay)
@@ -450,12 +455,12 @@ func c17Placeholders(res *PureResult, add func(string)) {
 				res.Evaluations++
 				res.Distinct++
 				if err != nil {
-					add(fmt.Sprintf("config with %q failed to load: %v", lay, err))
+					add(fmt.Sprintf("config with %q (A=%q B=%q) failed to load: %v", lay, av, bv, err))
 					continue
 				}
 				for name, got := range map[string]string{"hosts[0]": c.Hosts[0], "username": c.Username, "bucketName": c.BucketName, "dcp.group.name": c.Dcp.Group.Name, "metadata.config.bucket": c.Metadata.Config["bucket"]} {
 					if got != want {
-						add(fmt.Sprintf("placeholder layout %q (A set=%v, B set=%v): %s = %q, want %q", lay, aSet, bSet, name, got, want))
+						add(fmt.Sprintf("placeholder layout %q (A=%q, B=%q; empty = unset): %s = %q, want %q", lay, av, bv, name, got, want))
 					}
 				}
 			}
